@@ -53,7 +53,7 @@ def run_entry(env, entry, cfg):
         if rt is None:
             res = entry.fn(k)
             return res, ([], [], []), None, None, []
-        run_prelude(env, cfg)
+        run_prelude(env, cfg, entry)
         fn = lambda: entry.fn(k)
         for gn in reversed(gnames):
             fn = (lambda inner, gn=gn: (lambda: rt.guarded(k.G(gn))(inner)()))(fn)
